@@ -363,7 +363,13 @@ func TestDeterministicAcrossConfigurations(t *testing.T) {
 				return out3(t, &lat.Perturb3{S: b.SDF3(), Mode: mode}, rname, cells, sink, dir)
 			}
 		} else {
-			n = shape.Gen2(t, shape.Opts{S: S, Depth: rapid.IntRange(0, 2).Draw(t, "depth"), Grammar: shape.Lipschitz, NoPoly: true, SolidUnion2: true})
+			chainCells := 0
+			if rapid.IntRange(0, 2).Draw(t, "diagonal-chain") == 0 {
+				n, chainCells = diagonalChain(t, S)
+				rec.Label("det:diagonal-chain-of-discs")
+			} else {
+				n = shape.Gen2(t, shape.Opts{S: S, Depth: rapid.IntRange(0, 2).Draw(t, "depth"), Grammar: shape.Lipschitz, NoPoly: true, SolidUnion2: true})
+			}
 			b, err := shape.Build(n)
 			if err != nil {
 				rec.Count("discarded:constructor-rejected", 1)
@@ -378,6 +384,9 @@ func TestDeterministicAcrossConfigurations(t *testing.T) {
 			rname = rapid.SampledFrom([]string{"msu", "msq", "dc2"}).Draw(t, "renderer")
 			sink = rapid.SampledFrom([]string{"lines", "dxf", "svg"}).Draw(t, "sink")
 			cells = rapid.IntRange(8, ev.Pick(80, 200)).Draw(t, "cells")
+			if chainCells > 0 {
+				cells = chainCells
+			}
 			run = func(mode int) string { return out2(t, b.SDF2(), rname, cells, sink, dir) }
 		}
 		// baseline: one CPU, no perturbation, empty history
@@ -557,6 +566,29 @@ func quietly(f func()) {
 
 var pinNext atomic.Int64
 
+// diagonalChain: discs of about half a cell in radius whose centres step one cell in x AND y - features
+// that touch a lattice square at two opposite corners only (the ambiguous "saddle" squares of marching
+// squares, with the square's middle outside the solid). Returns the program and the cell count at
+// which the discs are a cell apart; the chain's position relative to the lattice drifts along its length
+// (the renderers pad the box), so every alignment of disc and lattice point occurs somewhere.
+func diagonalChain(t *rapid.T, S float64) (*shape.Node, int) {
+	k := rapid.IntRange(6, 40).Draw(t, "chain-discs")
+	d := S * g.F(0.05, 0.5).Draw(t, "chain-step")
+	r := d * g.F(0.35, 0.7).Draw(t, "chain-radius-in-cells")
+	dy := d
+	if rapid.Bool().Draw(t, "chain-descending") {
+		dy = -d
+	}
+	var pos []float64
+	for i := 0; i < k; i++ {
+		pos = append(pos, float64(i)*d, float64(i)*dy)
+	}
+	// bounding box side (k-1)*d + 2r = cells * h with h = d
+	cells := int(math.Round(float64(k-1) + 2*r/d))
+	cells += rapid.IntRange(-1, 1).Draw(t, "chain-cells-off")
+	return &shape.Node{Op: "multi2", P: pos, K: []*shape.Node{{Op: "circle", P: []float64{r}}}}, cells
+}
+
 func TestFreshProcesses(t *testing.T) {
 	rec := ev.Get()
 	bin := filepath.Join(os.Getenv("VERIF_BIN"), "detchild"+os.Getenv("VERIF_BIN_SUFFIX"))
@@ -584,6 +616,10 @@ func TestFreshProcesses(t *testing.T) {
 			c["renderer"] = rapid.SampledFrom([]string{"msu", "msq", "dc2"}).Draw(t, "renderer")
 			c["sinks"] = []string{"lines", "dxf", "svg"}
 			c["cells"] = rapid.IntRange(8, 60).Draw(t, "cells")
+			if rapid.IntRange(0, 2).Draw(t, "diagonal-chain") == 0 {
+				n, c["cells"] = diagonalChain(t, S)
+				rec.Label("fresh:diagonal-chain-of-discs")
+			}
 		}
 		c["program"] = n
 		dir, err := os.MkdirTemp("", "c09f")
